@@ -1094,6 +1094,76 @@ def run_r12(ctx, rule):
             rule.check(extra_ok, "from-ordered/%s/fields" % sec, "the other fields of a %s are handed over from the fields of the same name" % sec[:-1], cf.loc())
 
 
+# ---- R15 / R16 -------------------------------------------------------------------------------------------------------
+def run_r15(ctx, rule):
+    """Structural hashing merges a gate into an earlier one when the index says they are the same gate.  The index is
+    keyed by the ordered gate itself (both inputs); a derived integer key (an OR, a sum, a rotation that is the
+    identity for 64-bit codes) lets distinct gates collide, and the later ones silently become the first."""
+    facts = ctx.facts
+    a = facts.adts.get(AIG + "Renumber")
+    ok = False
+    ty = "?"
+    if a:
+        for fl in a["variants"][0]["fields"]:
+            if fl["name"] == "and_gate_index":
+                ty = fl.get("ty") or fl.get("s") or "?"
+                ok = "HashMap<" + AIG + "OrderedAndGate<" in ty.replace(" ", "")
+    rule.check(ok, "and_gate_index/keyed-by-the-gate", "the structural-hash index is keyed by the ordered gate itself, not by a number derived from it  [%s]" % ty[:90])
+    f = afn(facts, "Renumber::transfer")
+    sy = sym(f)
+    n = 0
+    for bb, t in f.calls():
+        cn = norm(util.cname(t))
+        if "HashMap" in cn and cn.rsplit("::", 1)[-1] in ("entry", "get", "insert", "contains_key") and t["args"]:
+            p0 = t["args"][0].get("mv") or t["args"][0].get("cp")
+            tys = f.locals[p0["l"]].get("s", "") if p0 else ""
+            if "OrderedAndGate" in tys and "LitDef" not in tys:
+                n += 1
+    rule.check(n >= 1, "and_gate_index/used", "transfer consults the index with the gate as the key (%d sites)" % n, f.loc())
+
+
+def run_r16(ctx, rule):
+    """Cycle detection: before a gate's continuation is pushed onto the explicit stack, the stack is probed for the
+    literal being transferred (`stack.get(len / 2)`), on *every* push - a probe that runs only at some depths finds
+    only cycles of some lengths, and the walk around any other cycle grows the stack until memory runs out."""
+    facts = ctx.facts
+    f = afn(facts, "Renumber::transfer")
+    c = cfg(f)
+    sy = sym(f)
+    def on_stack(t):
+        if not t["args"]:
+            return False
+        e = sy.operand(t["args"][0])
+        return mentions(e, lambda x: x[0] == "f" and x[2] == "stack")
+    probes = [bb for bb, t in f.calls() if norm(util.cname(t)).rsplit("::", 1)[-1] in ("get", "index", "iter", "contains", "last") and ("slice" in norm(util.cname(t)) or "Vec" in norm(util.cname(t))) and on_stack(t)]
+    pushes = [bb for bb, t in f.calls() if norm(util.cname(t)).endswith("Vec::push") and on_stack(t)]
+    if not pushes or not probes:
+        rule.bad("cycle-probe/anchor", "anchor missing: %d pushes onto the walk stack, %d probes of it" % (len(pushes), len(probes)), f.loc(), kind="anchor-missing")
+        return
+    # a gate is *opened* where its definition was just looked up in the definition table: that push starts the descent into
+    # the gate's inputs, and it is the one the probe must precede (the push of the second input's continuation belongs to
+    # a gate that is already on the stack)
+    def_lookups = []
+    for bb, t in f.calls():
+        cn = norm(util.cname(t))
+        if "HashMap" in cn and cn.rsplit("::", 1)[-1] in ("get", "contains_key", "get_key_value") and t["args"]:
+            p0 = t["args"][0].get("mv") or t["args"][0].get("cp")
+            if p0 and "LitDef" in f.locals[p0["l"]].get("s", ""):
+                def_lookups.append(bb)
+    loops_ = c.loops()
+    def same_step(d, pb):
+        heads = [h for h, body in loops_.items() if d in body and pb in body]
+        return pb in c.reachable_from(d, avoid=heads)
+    opening = [pb for pb in pushes if any(same_step(d, pb) for d in def_lookups)]
+    if not opening:
+        rule.bad("cycle-probe/opening-push", "anchor missing: no push that follows a look-up in the definition table", f.loc(), kind="anchor-missing")
+        return
+    for pb in opening:
+        ok = any(c.dominates(q, pb) for q in probes)
+        rule.check(ok, "cycle-probe/before-push@%d" % opening.index(pb), "the push that opens a gate is preceded, on every path, by the probe of the walk stack for a cycle (a probe that runs only at some depths misses cycles of other lengths)", f.loc(pb))
+    rule.ok("%d probes, %d pushes (%d opening a gate)" % (len(probes), len(pushes), len(opening)))
+
+
 def run(ctx):
     r1 = ctx.rule("C12-R1", "the renumbering code is not recursive (explicit stack)", floor=2)
     run_r1(ctx, r1)
@@ -1127,6 +1197,10 @@ def run(ctx):
     r14 = ctx.rule("C12-R14", "no table of the renumbering code is sized by a declared number (max_var_index, header counts): a well-formed graph with a large declared index is renumbered like any other (shared with C05-R5)", floor=1)
     c05.run_r5(ctx, r14, T.Taint(ctx.facts), scope=lambda f: f.crate == "flussab_aiger" and (norm(f.id).startswith(AIG + "Renumber") or norm(f.id).startswith(AIG + "Aig::lit_defs") or norm(f.id).startswith(AIG + "LitMap")))
     # (the conversion OrderedAig -> Aig is not in this scope: it spells out `input_count` inputs, which is its output)
+    r15 = ctx.rule("C12-R15", "the structural-hash index is keyed by the ordered gate itself (both inputs), so distinct gates never collide", floor=2)
+    run_r15(ctx, r15)
+    r16 = ctx.rule("C12-R16", "the cycle probe of the walk stack precedes every push onto it, unconditionally (cycles of every length are found, the stack cannot grow around one)", floor=2)
+    run_r16(ctx, r16)
     r6 = ctx.rule("C12-R6", "every constant fold is an identity of AND (each decision path checked over the six representative codes)", floor=5)
     run_r6(ctx, r6)
     ctx.assume("Boolean equivalence of the renumbered circuit as a whole, hash-consing and completeness of the cycle detection are value-level and NOT decided (the const-fold case analysis is decided by C12-R6)")
